@@ -38,7 +38,7 @@ Definition res_eqb (a b : res) : bool :=
    2 lone surrogates (and halves of a pair) are not representable: they become U+FFFD
    3 U+FFFD doubles as the "out of range" sentinel of charAt / charCodeAt / s[i]
    4 (fixed 8a02cb3, no longer produced) charAt / charCodeAt receivers that are not String objects
-   5 undefined this is replaced by the global object; substr does not reject null
+   5 undefined this is replaced by the global object (Function.prototype.call / apply)
    6 lastIndexOf: NaN position taken as 0, -Infinity as +Infinity
    7 (fixed 27b5748, no longer produced) int64 wrap-around in substr / lastIndexOf
    8 (fixed 4b90749, no longer produced) "01", "+1", "-0" accepted as index names
@@ -64,7 +64,6 @@ Definition res_has_sur (r : option res) : bool :=
 Definition classify (m : meth) (r : recv) (args : list arg) : Z :=
   match r with
   | RUndef => 5
-  | RNull => 5
   | _ =>
       if (match m with MLastIndexOf => true | _ => false end) &&
               (match to_number (arg_at args 1) with
